@@ -23,6 +23,21 @@ CHECKS = {
    text="6 (quick) / 8 (thorough) histories (linear, reorg to longer, reorg to shorter-heavier, side chain in two batches, three-way fork, SetHead+re-import, pre-image heavy) under archive and pruning configurations and Batch.ValueSize scales x1/x64/x1024: for every prefix of the unit log the image is reopened with NewBlockChain and the recovery oracle (no panic, admissible head, complete head state by an independent raw-image trie walker, index agrees with ancestry, root-present-implies-trie-present, re-feed converges) is applied; for every unit a failure is injected and the lock-idle / no-deadlock / recovery oracle applied.",
    note="Trusts: atomic-unit crash model (no torn batches), full-fake engine, log.Crit->sentinel rewrite, deadlock watchdog (20 s + goroutine parked on a sync primitive, unchanged for 2 s). Known open findings are listed in known_findings.jsonl.",
    ref="4/C04, 2.4"),
+ "C15": dict(cat="exploration", engine="E2-seqx + E1-schedx",
+   technique="exhaustive operation sequences on the real TxPool with a predicate invariant after every step, plus stateless model checking of 3-thread scenarios (controlled scheduler, preemption bounding) with a sequential-consistency oracle",
+   text="Sequential: every sequence of depth 3 (quick) / 4 (thorough) over a 24-symbol colliding alphabet (remote/local adds of pre-signed transactions of two senders at nonces 0-3 and three price levels around the bump, unaffordable / over-gas transactions, gas-price changes, head changes to four scripted heads incl. a reorg and a balance drop), from two initial heads, under default / tiny-limit / no-locals configurations; after every operation the pending set must be gap-free from the chain nonce, affordable, unique per (sender, nonce), within limits, replacements only with the bump, dropped transactions re-pooled. Concurrent: six 3-thread scenarios on the real pool with its real event loop, every schedule up to 2 (3) preemptions; invariant at quiescence and at observers, final content equal to some sequential order, no deadlock/leak.",
+   note="Trusts: AST instrumentation of core and aqua/event, synctest quiescence, in-package accessors VerifReset/VerifIsLocal; txFeed.Send goroutines run unmanaged (they share no state with the pool). Small-scope hypothesis.",
+   ref="4/C15, 2.2, 2.3"),
+ "C05": dict(cat="exploration", engine="E4-latx",
+   technique="exhaustive enumeration of value-moving macro programs, uncle sets and cut-off heights against an arithmetic supply oracle",
+   text="Total supply (sum over RawDump) before/after ApplyTransaction, Process and Finalize for the full product of outer action x value x callee behaviour x trailer x nesting x epoch, all 463 uncle sets at heights around 42,000,000 and the HF4 block; change <= scheduled issuance, equality unless a SELFDESTRUCT executed in a surviving frame (seen by a tracer).",
+   note="Trusts: the harness's hand-written issuance schedule and tracer-based burn detection; small-scope hypothesis over program shapes.",
+   ref="4/C05, 2.5"),
+ "C06": dict(cat="exploration", engine="E4-latx",
+   technique="exhaustive boundary-lattice enumeration of transactions against a hand-computed gas/fee reference",
+   text="Full lattice (after pruning numeric duplicates) of sender balance x nonce x price x gas limit x value x recipient kind x data shape x position x coinbase x epoch through ApplyTransaction, Process and InsertChain; exact gasUsed from a Yellow-Paper fee computation in the harness, exact sender/coinbase deltas, post-state equality via RawDump, receipts, and rejection of consensus-invalid transactions with untouched head/state.",
+   note="Trusts: the harness's own intrinsic/execution gas arithmetic for 12 fixed programs; one open known finding (pre-EIP-158 failed call to an absent precompile leaves an empty account).",
+   ref="4/C06, 2.5"),
 }
 NOT_YET = {}
 def main():
